@@ -436,6 +436,7 @@ func TestVerif_C09(t *testing.T) {
 		os.Remove(p)
 	}
 	vfC09Corpus(r, &totalSel)
+	vfC09ChunkGrid(r, dir, &totalSel)
 	r.Distinct("selections", totalSel+totalInvalid)
 	r.Set("valid_selections", totalSel)
 	r.Set("out_of_bounds_selections", totalInvalid)
@@ -647,4 +648,162 @@ func vfC09Corpus(r *vkit.Run, total *int64) {
 		f.Close()
 	}
 	r.Set("corpus_datasets", nds)
+}
+
+// vfC09ChunkGrid: datasets whose chunk grid is large (two- and three-digit chunk coordinates
+// in one and in two dimensions, thousands of chunks in one index): every single chunk's
+// region, every row and column of chunks and the full extent are read with ReadSlice and
+// compared with the gather from the full read; the chunk iterator must tile the full read.
+func vfC09ChunkGrid(r *vkit.Run, dir string, total *int64) {
+	for _, g := range []struct {
+		dims, chunk []uint64
+	}{{[]uint64{24, 22}, []uint64{2, 2}}, {[]uint64{230}, []uint64{2}}, {[]uint64{3000}, []uint64{1}}, {[]uint64{128, 64}, []uint64{2, 2}}} {
+		if r.Expired() {
+			r.Cap("time budget (chunk grid)")
+			return
+		}
+		name := fmt.Sprintf("chunk-grid f64%v chunk%v", g.dims, g.chunk)
+		p := filepath.Join(dir, fmt.Sprintf("c09-grid-%d.h5", atomic.AddInt64(&vfC09Counter, 1)))
+		w, err := CreateForWrite(p, CreateTruncate)
+		if err != nil {
+			r.Fail("chunk-grid/create-failed", map[string]any{"dataset": name, "error": err.Error()})
+			continue
+		}
+		ty := vfTypes["f64"]
+		dw, err := w.CreateDataset("/d", ty.DT, g.dims, WithChunkDims(g.chunk))
+		if err == nil {
+			err = dw.Write(ty.Make(vfProd(g.dims), 1))
+		}
+		if cerr := w.Close(); err == nil {
+			err = cerr
+		}
+		if err != nil {
+			r.Fail("chunk-grid/write-failed", map[string]any{"dataset": name, "error": err.Error()})
+			os.Remove(p)
+			continue
+		}
+		f, err := Open(p)
+		if err != nil {
+			r.Fail("chunk-grid/reopen-failed", map[string]any{"dataset": name, "error": err.Error()})
+			os.Remove(p)
+			continue
+		}
+		var d *Dataset
+		f.Walk(func(path string, o Object) {
+			if x, ok := o.(*Dataset); ok && path == "/d" {
+				d = x
+			}
+		})
+		full, err := d.Read()
+		if err != nil || len(full) != vfProd(g.dims) {
+			r.Fail("chunk-grid/full-read-failed", map[string]any{"dataset": name, "error": fmt.Sprint(err), "elements": len(full)})
+			f.Close()
+			os.Remove(p)
+			continue
+		}
+		rank := len(g.dims)
+		nch := make([]uint64, rank)
+		for k := range nch {
+			nch[k] = (g.dims[k] + g.chunk[k] - 1) / g.chunk[k]
+		}
+		type region struct{ start, count []uint64 }
+		var regs []region
+		regs = append(regs, region{make([]uint64, rank), append([]uint64{}, g.dims...)})
+		var rec func(k int, cur []uint64)
+		rec = func(k int, cur []uint64) {
+			if k == rank {
+				st, ct := make([]uint64, rank), make([]uint64, rank)
+				for j := range cur {
+					st[j] = cur[j] * g.chunk[j]
+					ct[j] = g.chunk[j]
+					if st[j]+ct[j] > g.dims[j] {
+						ct[j] = g.dims[j] - st[j]
+					}
+				}
+				regs = append(regs, region{st, ct})
+				return
+			}
+			for c := uint64(0); c < nch[k]; c++ {
+				rec(k+1, append(cur, c))
+			}
+		}
+		rec(0, nil)
+		if rank == 2 { // whole rows and whole columns of chunks
+			for c := uint64(0); c < nch[0]; c++ {
+				regs = append(regs, region{[]uint64{c * g.chunk[0], 0}, []uint64{g.chunk[0], g.dims[1]}})
+			}
+			for c := uint64(0); c < nch[1]; c++ {
+				regs = append(regs, region{[]uint64{0, c * g.chunk[1]}, []uint64{g.dims[0], g.chunk[1]}})
+			}
+		}
+		atomic.AddInt64(total, int64(len(regs)))
+		vkit.ParallelFor(len(regs), func(i int) {
+			rg := regs[i]
+			sel := make([]vfSelDim, rank)
+			for k := range sel {
+				sel[k] = vfSelDim{rg.start[k], rg.count[k], 1, 1}
+			}
+			detail := map[string]any{"dataset": name, "start": rg.start, "count": rg.count}
+			r.Cases(1)
+			r.Guard("chunk-grid/readslice/", detail, func() {
+				got, err := d.ReadSlice(rg.start, rg.count)
+				if err != nil {
+					detail["error"] = err.Error()
+					r.Fail("chunk-grid/readslice/valid-selection-rejected", detail)
+					return
+				}
+				gf, _ := vfToFloats(got)
+				if want := vfGather(full, g.dims, sel); !vfSameBits(gf, want) {
+					r.Fail("chunk-grid/readslice/"+vfC09Shape(gf, want), detail)
+					return
+				}
+				r.Outcome("equal")
+			})
+		})
+		// iterator: every piece equals the gather of its region, the pieces cover every element once
+		r.Guard("chunk-grid/iterator/", map[string]any{"dataset": name}, func() {
+			it, err := d.ChunkIterator()
+			if err != nil {
+				r.Fail("chunk-grid/iterator/unavailable", map[string]any{"dataset": name, "error": err.Error()})
+				return
+			}
+			covered := 0
+			pieces := 0
+			for it.Next() {
+				piece, err := it.Chunk()
+				if err != nil {
+					r.Fail("chunk-grid/iterator/chunk-error", map[string]any{"dataset": name, "error": err.Error()})
+					return
+				}
+				pf, _ := vfToFloats(piece)
+				co := it.ChunkCoords()
+				sel := make([]vfSelDim, rank)
+				for k := range sel {
+					st := co[k] * g.chunk[k]
+					if len(co) != rank || st >= g.dims[k] {
+						r.Fail("chunk-grid/iterator/coordinates-outside", map[string]any{"dataset": name, "coords": co})
+						return
+					}
+					ct := g.chunk[k]
+					if st+ct > g.dims[k] {
+						ct = g.dims[k] - st
+					}
+					sel[k] = vfSelDim{st, ct, 1, 1}
+				}
+				if want := vfGather(full, g.dims, sel); !vfSameBits(pf, want) {
+					r.Fail("chunk-grid/iterator/"+vfC09Shape(pf, want), map[string]any{"dataset": name, "coords": co})
+					return
+				}
+				covered += len(pf)
+				pieces++
+			}
+			if it.Err() != nil || covered != len(full) {
+				r.Fail("chunk-grid/iterator/does-not-tile", map[string]any{"dataset": name, "covered": covered, "elements": len(full), "pieces": pieces, "error": fmt.Sprint(it.Err())})
+				return
+			}
+			r.Outcome("iterator-ok")
+		})
+		f.Close()
+		os.Remove(p)
+	}
 }
